@@ -516,7 +516,7 @@ func runC19(c *Ctx) {
 	r.Assume("for the name shapes 'underscore' and 'trailing-dot' only the rejection of bad chains is judged; acceptance of a leaf minted for exactly that name is counted, not required")
 	r.Assume("the empty-Certificate-message case is exercised with a hand-written TLS 1.2 server flight only (crypto/tls servers cannot send one; no TLS 1.3 variant)")
 	r.Assume("HTTP bytes sent to a metadata server whose chain was (wrongly) accepted are reported through accepted-bad-chain only; bytes-before-auth is about CQL bytes to nodes")
-	r.Require("metadata/accepted", "metadata/rejected", "node/accepted", "node/rejected", "startup_frames_on_accepted_nodes", "tls12/rejected", "tls13/rejected",
+	r.Require("forged_twin_presentations:after-a-genuine-handshake", "forged_twin_genuine_accepted", "metadata/accepted", "metadata/rejected", "node/accepted", "node/rejected", "startup_frames_on_accepted_nodes", "tls12/rejected", "tls13/rejected",
 		"empty/metadata/rejected", "empty/node-cp/rejected", "empty/node-row/rejected", "client_cert_checked/node", "client_cert_checked/metadata", "sni_checked/node-row", "sni_checked/node-cp", "sni_checked/metadata", "expiry_connections_after_expiry", "expiry_accepted_while_valid")
 
 	old := net.DefaultResolver
@@ -536,6 +536,7 @@ func runC19(c *Ctx) {
 	n := c.Pick(2*len(c19Shapes), 8000)
 	c.Parallel(n, 8, func(i int) { c19RunName(c, i) })
 	c.Parallel(c.Pick(6, 300), 6, func(i int) { c19Expiry(c, i) })
+	c.Parallel(c.Pick(12, 600), 6, func(i int) { c19ForgedTwin(c, i) })
 	c19DNSQueries.Lock()
 	r.Obs("dns_stub_queries", c19DNSQueries.n)
 	c19DNSQueries.Unlock()
@@ -548,6 +549,147 @@ func runC19(c *Ctx) {
 // certificate then expires; a connection through the SAME endpoint objects (what every reconnect of the proxy uses) must
 // be rejected before any CQL byte is sent. Accept/reject is fixed by construction: the leaf's notAfter is 1.2 s after
 // its creation, the second connection is made after that instant has been waited out.
+func c19ForgedTwin(c *Ctx, idx int) {
+	r := c.R
+	rng := c.Rng(200000 + idx)
+	host, shape, _ := c19GenName(rng, idx)
+	c.Step("forged-twin %d shape=%s host=%s", idx, shape, host)
+	now := time.Now()
+	pki := newC19PKI(now, fmt.Sprintf("t%d", idx))
+	meta, err := newC19Station("metadata", pki.clientDER)
+	if err != nil {
+		r.Inconc("cannot listen: " + err.Error())
+		return
+	}
+	defer meta.close()
+	node, err := newC19Station("node", pki.clientDER)
+	if err != nil {
+		r.Inconc("cannot listen: " + err.Error())
+		return
+	}
+	defer node.close()
+	zr, _, err := pki.bundleZip(rng, host, meta.port)
+	if err != nil {
+		r.Inconc("cannot build bundle zip: " + err.Error())
+		return
+	}
+	bundle, err := astra.LoadBundleZip(zr)
+	if err != nil {
+		r.Inconc("LoadBundleZip: " + err.Error())
+		return
+	}
+	resolver := astra.NewResolver(bundle, 15*time.Second)
+	_, cp := c19UUID(rng, 3)
+	body, _ := json.Marshal(map[string]interface{}{"version": 1, "region": "", "contact_info": map[string]interface{}{
+		"type": "sni_proxy", "local_dc": "dc1", "sni_proxy_address": fmt.Sprintf("127.0.0.1:%d", node.port), "contact_points": []string{cp}}})
+	meta.setMetadata(body)
+	msc := &c19ServerCase{version: tls.VersionTLS13}
+	msc.chain, _ = pki.chain(rng, ckValid, host, host)
+	meta.setCase(msc)
+	ctx, cancel := context.WithTimeout(context.Background(), 20*time.Second)
+	eps, rerr := resolver.Resolve(ctx)
+	cancel()
+	meta.setCase(nil)
+	if rerr != nil || len(eps) == 0 {
+		r.Inconc(fmt.Sprintf("forged-twin: Resolve failed with a valid chain: %v", rerr))
+		return
+	}
+	raw, _ := c19UUID(rng, 5)
+	rows := &message.RowsResult{
+		Metadata: &message.RowsMetadata{ColumnCount: 3, Columns: []*message.ColumnMetadata{
+			{Keyspace: "system", Table: "peers", Name: "peer", Type: datatype.Inet},
+			{Keyspace: "system", Table: "peers", Name: "data_center", Type: datatype.Varchar},
+			{Keyspace: "system", Table: "peers", Name: "host_id", Type: datatype.Uuid}}},
+		Data: message.RowSet{message.Row{[]byte{10, 0, 0, 9}, []byte("dc1"), append([]byte(nil), raw[:]...)}},
+	}
+	rowEP, nerr := resolver.NewEndpoint(proxycore.NewResultSet(rows, primitive.ProtocolVersion4).Row(0))
+	if nerr != nil {
+		r.Inconc("forged-twin: NewEndpoint: " + nerr.Error())
+		return
+	}
+	targets := []struct {
+		name string
+		ep   proxycore.Endpoint
+	}{{c19TargetCP, eps[0]}, {c19TargetRow, rowEP}}
+	// the genuine node certificate, and forgeries that copy everything a peer can see of it without the CA's key: subject,
+	// names, validity and SERIAL NUMBER, under an issuer with the bundle CA's distinguished name
+	serial := c19Serial()
+	gder, gkey := c19Leaf(c19LeafSpec{dnsNames: []string{host}, cn: "node", notBefore: now.Add(-time.Hour), notAfter: now.Add(24 * time.Hour), signer: pki.root, serial: serial})
+	genuine := tls.Certificate{Certificate: [][]byte{gder}, PrivateKey: gkey}
+	rootSubj := pki.root.cert.Subject
+	type forgery struct {
+		name  string
+		chain tls.Certificate
+	}
+	mk := func(name string, spec c19LeafSpec, extra ...[]byte) forgery {
+		spec.serial = serial
+		spec.cn = "node"
+		spec.notBefore, spec.notAfter = now.Add(-time.Hour), now.Add(24*time.Hour)
+		der, key := c19Leaf(spec)
+		return forgery{name, tls.Certificate{Certificate: append([][]byte{der}, extra...), PrivateKey: key}}
+	}
+	forgeries := []forgery{
+		mk("other-ca-same-issuer-name", c19LeafSpec{dnsNames: []string{host}, signer: pki.otherSame}),
+		mk("other-ca-same-issuer-name+its-ca", c19LeafSpec{dnsNames: []string{host}, signer: pki.otherSame}, pki.otherSame.der),
+		mk("other-ca-same-issuer-name+real-root", c19LeafSpec{dnsNames: []string{host}, signer: pki.otherSame}, pki.root.der),
+		mk("self-signed-with-ca-name", c19LeafSpec{dnsNames: []string{host}, selfSubj: &rootSubj, selfCA: true}),
+		mk("other-ca-wrong-name", c19LeafSpec{dnsNames: []string{"decoy.invalid"}, signer: pki.otherSame}),
+		mk("unrelated-ca", c19LeafSpec{dnsNames: []string{host}, signer: pki.other}),
+	}
+	dial := func(ep proxycore.Endpoint, ver uint16, chain tls.Certificate) (bool, error, []*c19ConnObs, bool) {
+		sc := &c19ServerCase{version: ver, chain: chain}
+		node.setCase(sc)
+		ctx, cancel := context.WithTimeout(context.Background(), 20*time.Second)
+		cl, cerr := proxycore.ConnectClient(ctx, ep, proxycore.ClientConnConfig{})
+		if cerr == nil && cl != nil {
+			_, _ = cl.Handshake(ctx, primitive.ProtocolVersion4, nil)
+			_ = cl.Close()
+		}
+		cancel()
+		ok := sc.waitConns(1, 8*time.Second)
+		node.setCase(nil)
+		return cerr == nil, cerr, sc.snapshot(), ok
+	}
+	fg := forgeries[idx%len(forgeries)]
+	judge := func(stage string, tgName string, acc bool, cerr error, obs []*c19ConnObs, ok bool) {
+		r.Eval(1)
+		app := 0
+		for _, o := range obs {
+			app += o.AppBytes
+		}
+		if !ok {
+			r.Inconc("forged-twin: watchdog waiting for the server side of the connection")
+			return
+		}
+		r.Obs("forged_twin_presentations:"+stage, 1)
+		r.NonTrivial(fmt.Sprintf("forged-twin/%s/%s/%s/%s", fg.name, stage, shape, tgName))
+		if acc || app > 0 {
+			r.Violate(mon.Violation{Signature: fmt.Sprintf("C19/accepted-bad-chain/forged-twin/%s/%s/%s", fg.name, stage, c19TargetClass(tgName)),
+				Detail:   fmt.Sprintf("a server presented a certificate that copies subject, names, validity and serial number of the genuine node certificate but is not signed by the bundle CA (%s); presented %s through the endpoint for %s (bundle host %q): accepted=%v, application bytes received by the impostor: %d (client error: %v)", fg.name, stage, tgName, host, acc, app, cerr),
+				Scenario: map[string]interface{}{"kind": "forged-twin", "index": idx}, Witness: obs})
+		}
+	}
+	for ti, tg := range targets {
+		ver := []uint16{tls.VersionTLS12, tls.VersionTLS13}[(idx+ti)%2]
+		// before any genuine handshake
+		if ti == 0 {
+			acc, cerr, obs, ok := dial(tg.ep, ver, fg.chain)
+			judge("before-any-genuine-handshake", tg.name, acc, cerr, obs, ok)
+		}
+		// the genuine node is accepted
+		acc, cerr, _, _ := dial(tg.ep, ver, genuine)
+		r.Eval(1)
+		if acc {
+			r.Obs("forged_twin_genuine_accepted", 1)
+		} else {
+			r.Obs("forged_twin_genuine_refused:"+c19Reason(cerr), 1)
+		}
+		// then the impostor, through the same endpoint object
+		acc, cerr, obs, ok := dial(tg.ep, ver, fg.chain)
+		judge("after-a-genuine-handshake", tg.name, acc, cerr, obs, ok)
+	}
+}
+
 func c19Expiry(c *Ctx, idx int) {
 	r := c.R
 	rng := c.Rng(100000 + idx)
